@@ -45,6 +45,7 @@ type jReplCase struct {
 	PartBy    []string `json:"part_by"`
 	TidPartBy []string `json:"tid_part_by"`
 	Steps     []jRStep `json:"steps"`
+	Queue     int      `json:"queue,omitempty"` // > 0: the leaders queue at most this many entries per follower (MaxFollowQueue)
 	NT        bool     `json:"nt"`
 	// observations
 	Obs      [][][]int64 `json:"obs,omitempty"`    // per settle, per follower: encoded entries held by tid (sorted)
@@ -176,6 +177,13 @@ func genReplCase(r *rand.Rand) *jReplCase {
 		return false
 	}
 	ins(8)
+	if r.Intn(3) == 0 {
+		// a slow follower behind a short queue: connected all the time, just behind; then a burst
+		c.Queue = 2 + r.Intn(3)
+		c.Steps = append(c.Steps, jRStep{Op: "slow", Node: r.Intn(F)})
+		ins(8)
+		ins(8)
+	}
 	faults := 2 + r.Intn(5)
 	for fa := 0; fa < faults; fa++ {
 		f := r.Intn(F)
@@ -558,6 +566,8 @@ func execRepl(e *Env, c *jReplCase, wantDB bool) (*replRun, []string, error) {
 		RetentionPeriod: 10000 * time.Hour, // (not more: under VirtualTime the clock is the zero time at start-up and zero minus a century wraps)
 		SQL:             "SELECT SUM(one) AS cnt FROM inbound GROUP BY pid, period(1h)",
 		PartitionBy:     append([]string(nil), c.TidPartBy...)}}
+	cluFollowQueue = c.Queue
+	defer func() { cluFollowQueue = 0 }()
 	cl, err := startClusterL(filepath.Join(dir, "c"), &c.Table, c.P, c.Replicas, c.PartBy, c.L, extra)
 	if err != nil {
 		return nil, nil, err
